@@ -190,6 +190,10 @@ def _sources_for(q, run_dir, native=False):
         srcs.append(os.path.join(VERIF, "harness/common/libc_stubs.c"))
     for g in q.gen_srcs:
         srcs.append(g(run_dir, q))
+    for part in getattr(q, "asm_parts", []):
+        from . import asmgen
+        p = asmgen.asm_part_source(run_dir, q, part)
+        srcs += p if isinstance(p, list) else [p]
     # de-duplicate, keep order
     seen = set()
     out = []
@@ -395,13 +399,15 @@ def native_replay(q, run_dir, wdir, vals, form=None, tag="r"):
                 (", ".join("%dULL" % v for _, v in vals) if vals else "0"))
         f.write("static const unsigned long vh_nvals = %d;\n" % len(vals))
     exe = os.path.join(wdir, "replay-%s" % tag)
-    cmd = (["gcc", "-O1", "-w", "-DVERIF_REPLAY", "-I", wdir] + flags + srcs +
+    # AddressSanitizer/UBSan make memory-safety and undefined-behaviour counterexamples observable natively
+    cmd = (["gcc", "-O1", "-g", "-w", "-fsanitize=address,undefined", "-fno-sanitize-recover=all", "-fno-omit-frame-pointer",
+            "-DVERIF_REPLAY", "-I", wdir] + flags + srcs +
            [os.path.join(VERIF, "harness/common/replay_main.c"), "-o", exe])
     rc, out, _ = run_cmd(cmd, 300)
     if rc != 0:
         return None, "native build failed: " + out[-2000:]
     rc, out, _ = run_cmd([exe], 120)
-    if "CHECK-FAILED" in out:
+    if "CHECK-FAILED" in out or "AddressSanitizer" in out or "runtime error:" in out:
         return True, out
     if rc == 0:
         return False, out
